@@ -3,46 +3,60 @@
 spec  : TetraWeights.tla -- ClosedOcc (Hermite-Genocchi divided difference of (ef-t)_+^3, confluent for coincident corners),
         TruncPow (symmetric truncated-power sum), WeightsTetra (transcription of weights_tetra: sort, 1e-12 nudge chain as
         an infinitesimal, piece selection, accurate product form / polynomial coefficients, der 0..3), ParalWeight
-        (12-tetrahedra mean of TetraWeightsParal), AllBandGroups (weights_all_band_groups: groups in range, sea and
-        anti-sea completion); exact rationals (BandsRat.tla).
+        (12-tetrahedra mean of TetraWeightsParal; either diagonal of a face), AllBandGroups (weights_all_band_groups: groups
+        in range, sea and anti-sea completion; compared per band); exact rationals (BandsRat.tla).
         MC_TetraWeights / MC_TetraParal / MC_TetraGroups: TLC checks transcription = closed form and the C14 clauses for
         every input inside the constants.
 bind  : spec -> code: every TLC state is replayed on the real weights_tetra (both branches, der 0..3, permuted corner order),
-        TetraWeightsParal.weight_1k1b(_priv), TetraWeights.weights_all_band_groups (der 0, -1, 1) and the real CumDOS / DOS
-        calculators with tetra=True on a duck-typed data_K; code -> spec: seeded random calls (larger magnitudes) are
-        recorded and validated by TLC against TetraWeightsRec.tla (exact rationals, integer tolerance).
+        on one-band TetraWeightsParal objects (through weights_all_band_groups and, if still there, weight_1k1b_priv), on
+        TetraWeights.weights_all_band_groups (der 0, -1, 1; per-band weights) and, for a fixed subset, on the real CumDOS / DOS
+        calculators with tetra=True on a duck-typed data_K; objects with three k-points are queried with two Fermi arrays in
+        the order der 0, 1, 1, 0, 0 (weight cache); one real wb.run (pythtb model, real Data_K.tetraWeights) is compared with
+        the closed form on corner energies that the harness gets from pythtb; code -> spec: seeded random calls (larger
+        magnitudes) are recorded and validated by TLC against TetraWeightsRec.tla (exact rationals, integer tolerance).
 """
 import copy
+import itertools
+import os
 import random
 from fractions import Fraction
 
 import numpy as np
 
-from .. import tlc, ftable
-from ..common import Report, MachineryError, seed, quiet
-from ._c1314_util import tlc_jobs, validate_parallel
+from .. import ftable
+from ..common import Report, MachineryError, seed, quiet, WORK
+from ._c1314_util import (tlc_jobs, validate_parallel, validate_records, lib_call, run_parts, Guard, PrivateGone, uniq)
 
 PROPS = {
     "C14": dict(level="model_checking",
                 technique="TLC exhaustive on TetraWeights.tla (rational transcription of both branches of weights_tetra, of the 12-tetrahedra "
-                          "parallelepiped mean and of weights_all_band_groups vs the exact divided-difference volume fraction) + replay of every TLC "
-                          "state on the real functions and on CumDOS/DOS(tetra=True) + TLC validation of recorded calls in exact rationals",
+                          "parallelepiped mean and of weights_all_band_groups vs the exact divided-difference volume fraction) + replay of every "
+                          "admissible TLC state on the real functions and of a fixed subset on CumDOS/DOS(tetra=True) + TLC validation of recorded "
+                          "calls in exact rationals + one real run through Data_K.tetraWeights (floating point)",
                 text="TLC checks for every corner multiset / Fermi level / derivative order / branch inside the constants that the code's formulas "
                      "equal the exact volume fraction and its derivatives, lie in [0,1], are monotone, order independent, 0 below and 1 above the "
                      "corners, continuous at the break points to the order the corner multiplicity allows, that the parallelepiped weight is the "
-                     "mean of its 12 tetrahedra and that the sea / anti-sea completion of band groups reproduces the sum of the exact band "
-                     "occupations (CumDOS 0 below all bands, num_wann above); every state is executed on the real code and compared with the "
-                     "rational; random real calls are validated by TLC.",
+                     "mean of its 12 tetrahedra (independent of the face diagonals on cubes with planar faces) and that the sea / anti-sea "
+                     "completion of band groups gives every band the mean exact weight of its degenerate group (CumDOS 0 below all bands, "
+                     "num_wann above). Every admissible state is executed on the real weights_tetra / TetraWeightsParal / weights_all_band_groups "
+                     "and compared with the rational (parallelepipeds with non-planar faces: with the bounds over the possible face diagonals; "
+                     "band groups: per band, not as a list of groups); every third parallelepiped state of der <= 1 and every second / third "
+                     "group state also goes through CumDOS / DOS(tetra=True) on a duck-typed data_K; random real calls are validated by TLC. "
+                     "Quick tier: corners from {0,2,4,6}, 48 of the 256 cubes over {0,4}; thorough: corners 0..16, all cubes over two pairs.",
                 note="energies are integers times 1/16 (replay) or 1/8 (records), exact in binary floating point. Float tolerances: 1e-9 for "
                      "distinct corners (observed deviation <= 2e-15); 1e-5 for coincident corners (the code replaces them by a 1e-12 chain: "
                      "observed deviation <= 3e-10); records are compared after rounding to 1e-8 with tolerances 1e-8 (accurate branch, distinct), "
-                     "1e-7 (polynomial branch, |E| <= 5: observed 2e-12) and 1e-5 (coincident). Named exclusions: a Fermi level equal to a "
-                     "coincident corner energy is never used (NotOnDegenerateCorner: the polynomial branch evaluates the cubic of the 1e-12 "
-                     "wide piece there, error 1e-3 .. 1e8 for accurate=False, see DESIGN 7); der n at a corner of multiplicity m is compared "
-                     "with the closed form only if m + n <= 3 (WellDefined), otherwise with the code's right-continuous convention; bands are "
-                     "ordered at every corner (BandsOrderedAtCorners, true for sorted eigenvalues). Nearly coincident corners (gaps 2^-10..2^-46, "
-                     "not representable in TLC) are checked outside TLC on the accurate branch by the rigorous bracket exact(ef-4e-12) <= w <= "
-                     "exact(ef) (the 1e-12 nudge moves corners up by <= 3e-12) and only measured on the polynomial branch (numeric_only parts).",
+                     "1e-7 (polynomial branch, |E| <= 5: observed 2e-12) and 1e-5 (coincident). The polynomial branch is decided for |E| <= 4.5 and "
+                     "exactly coincident or well separated corners only. Named exclusions: a Fermi level equal to a coincident corner energy is "
+                     "not used in TLC (NotOnDegenerateCorner: the polynomial branch evaluates the cubic of the 1e-12 wide piece there, error 1e-3 .. "
+                     "1e8 for accurate=False, see DESIGN 7); for the accurate branch such levels are checked outside TLC against the (continuous) "
+                     "closed form with 1e-5. der 3 on a simple corner (the derivative jumps): either one-sided value is accepted for one "
+                     "tetrahedron, such parallelepiped states are skipped; bands are ordered at every corner (BandsOrderedAtCorners, true for sorted "
+                     "eigenvalues). Nearly coincident corners (gaps 2^-10..2^-46, not representable in TLC) are checked outside TLC on the accurate "
+                     "branch by the two-sided bracket exact(ef-1e-9) - 1e-9 <= w <= exact(ef+1e-9) + 1e-9 (any nudge of the corners up to 1e-9 in "
+                     "either direction) and only measured on the polynomial branch. The real run (pythtb 2-band model, 4x4x2 k-points) is compared "
+                     "with the face-diagonal bounds computed from pythtb eigenvalues at k +- dk/2, tolerance 1e-7 (observed 1e-15 where the bounds "
+                     "coincide); a harness-side model with corners at k +- dk must fall outside the bounds (sensitivity self-test).",
                 ref="DESIGN.md 3.5"),
 }
 
@@ -51,11 +65,11 @@ U_REC = 1.0 / 8     # unit of the recorded calls
 TOL_DISTINCT = 1e-9
 TOL_COINCIDENT = 1e-5
 INV_TETRA = ["CodeEqualsClosedForm", "ClosedEqualsTruncPow", "UnitRange", "DensityNonNegative", "Monotone", "MonotoneCode", "Outside",
-             "OrderIrrelevant", "DerivativeOfPieceCubic", "BreakPoints", "Nudge"]
-INV_PARAL = ["ParalCodeEqualsClosed", "ParalUnitRange", "ParalOutside", "ParalMonotone", "FaceSplit"]
-INV_GROUPS = ["Assumed", "GroupsAreDisjoint", "SeaComplete", "AntiSeaComplete", "SeaPlusAntiSea", "SurfaceComplete", "CumDosLimits", "CumDosMonotone"]
+             "OrderIrrelevant", "DerivativeOfPieceCubic", "BreakPoints", "Nudge", "OneSidedOnlyAtJumps"]
+INV_PARAL = ["ParalCodeEqualsClosed", "ParalUnitRange", "ParalOutside", "ParalMonotone", "FaceSplit", "PlanarDiagonalFree"]
+INV_GROUPS = ["Assumed", "GroupsAreDisjoint", "SeaComplete", "AntiSeaComplete", "SeaPlusAntiSea", "SurfaceComplete", "CumDosLimits", "CumDosMonotone",
+              "PerBandExact", "WholeDegenerateGroups"]
 REC_CFG = 'SPECIFICATION RecSpec\nCONSTANTS\n  TWVariant = "code"\nINVARIANT Report\nCHECK_DEADLOCK FALSE\n'
-import os
 WORKERS = int(os.environ.get("VERIF_TLC_WORKERS", "16"))
 
 
@@ -94,26 +108,81 @@ def py_closed(e, ef, n):
     return -dd(0, 3)
 
 
+def py_borders(E, th, kr):
+    b = [0] + [i for i in range(1, len(E)) if E[i] - E[i - 1] > th] + [len(E)]
+    if kr:
+        b = [i for i in b if i % 2 == 0]
+    return list(zip(b, b[1:]))
+
+
 def real_weights_tetra(efs, e, der, acc, unit):
     from wannierberri.grid.tetrahedron import weights_tetra
     got = weights_tetra(np.array(efs, dtype=float) * unit, e[0] * unit, e[1] * unit, e[2] * unit, e[3] * unit, der=der, accurate=acc)
-    return got * unit ** der
+    return np.array(got, dtype=float) * unit ** der
 
 
 class DuckTetraDataK:
     """what StaticCalculator.__call__ (tetra branch) and frml.Identity touch"""
     force_internal_terms_only = False
 
-    def __init__(self, tw, cell_volume=2.0):
+    def __init__(self, tw, nk, nb, cell_volume=2.0):
         self.tetraWeights = tw
-        self.nk = tw.nk
-        self.num_wann = tw.nb
+        self.nk = nk
+        self.num_wann = nb
         self.cell_volume = cell_volume
+
+
+def face_pairs(ec, c):
+    """the six faces of the cube c[x][y][z] with the centre: for each face the two splits ((t1, t2) code's diagonal [0,0]-[1,1],
+    (t1', t2') the other diagonal), each t a list of four corner energies"""
+    c = np.asarray(c)
+    out = []
+    for iface in (0, 1):
+        for F in (c[iface, :, :], c[:, iface, :], c[:, :, iface]):
+            a, b, cc, d = F[0, 0], F[0, 1], F[1, 0], F[1, 1]
+            out.append((([ec, a, b, d], [ec, a, cc, d]), ([ec, b, a, cc], [ec, b, d, cc])))
+    return out
+
+
+def paral_bounds(ec, c, ef, der):
+    """-> (value with the code's diagonals, lower, upper) of the 12-tetrahedra mean over the possible face diagonals (Fractions)"""
+    code = lo = hi = Fraction(0)
+    for (A, B) in face_pairs(ec, c):
+        va = py_closed(A[0], ef, der) + py_closed(A[1], ef, der)
+        vb = py_closed(B[0], ef, der) + py_closed(B[1], ef, der)
+        code += va
+        lo += min(va, vb)
+        hi += max(va, vb)
+    return code / 12, lo / 12, hi / 12
+
+
+def expand_per_band(groups, nb, nef):
+    """list of (ib1, ib2, weights[nef]) -> array [band][level]: weight of the group containing the band, 0 for bands in no group;
+    None if groups overlap"""
+    out = np.zeros((nb, nef))
+    seen = np.zeros(nb, dtype=int)
+    for a, b, w in groups:
+        w = np.asarray(w, dtype=float)
+        if w.shape != (nef,) or a < 0 or b > nb or a >= b:
+            return None
+        out[a:b] = w
+        seen[a:b] += 1
+    if np.any(seen > 1):
+        return None
+    return out
+
+
+def splits_degenerate_group(groups, ec, th, kr):
+    for a, b, _ in groups:
+        for ga, gb in py_borders(list(ec), th, kr):
+            if ga < b and a < gb and not (a <= ga and gb <= b):
+                return (a, b), (ga, gb)
+    return None
 
 
 # --------------------------------------------------------------------------------------------------------------------
 def tetra_jobs(thorough):
-    corners = list(range(0, 17, 2)) if thorough else list(range(0, 9, 2))
+    corners = list(range(0, 17, 2)) if thorough else list(range(0, 7, 2))
     # EFLO is given shifted by one (cfg files cannot hold negative numbers)
     return {"c14_tetra": ("MC_TetraWeights.tla", cfg_of(dict(TWVariant='"code"', CORNERS=tlaset(corners), EFLO1=0, EFHI=corners[-1] + 1), INV_TETRA), True),
             # sensitivity: a slip in one polynomial coefficient must be rejected by TLC
@@ -123,7 +192,6 @@ def tetra_jobs(thorough):
 def part_tetra(rep, res, rng):
     st, st0 = res["c14_tetra"], res["c14_tetra_typo"]
     ftable.spec_violation(rep, st, "c14_tetra")
-    tlc.check_not_vacuous(st, ["Step"], "c14_tetra")
     rep.add_tlc("c14_tetra", st)
     if not st0.get("violation"):
         raise MachineryError("sensitivity self-test failed: TWVariant=typo_c22 must violate an invariant of MC_TetraWeights")
@@ -131,39 +199,50 @@ def part_tetra(rep, res, rng):
 
     groups = {}
     nst = 0
-    classes = dict(distinct=0, coincident=0, on_simple_corner=0, excluded=0, accurate=0, poly=0)
+    classes = dict(distinct=0, coincident=0, on_simple_corner=0, excluded=0, accurate=0, poly=0, one_sided=0)
     for s in ftable.dump_states(st):
         nst += 1
         groups.setdefault((tuple(s["e"]), s["der"], s["acc"]), []).append(s)
     if nst != st["distinct"]:
         raise MachineryError(f"dump has {nst} states, TLC reported {st['distinct']}")
+    if not any(s["ef"] > min(s["e"]) for sts in groups.values() for s in sts):
+        raise MachineryError("vacuous model c14_tetra: the Fermi level never moves (action Step)")
     mc_oracle = []
     for (e, der, acc), sts in sorted(groups.items()):
-        adm = [s for s in sts if s["admissible"]]
+        adm = sorted((s for s in sts if s["admissible"]), key=lambda s: s["ef"])
         classes["excluded"] += len(sts) - len(adm)
         if not adm:
             continue
         efs = [s["ef"] for s in adm]
         perm = list(e)
         rng.shuffle(perm)
-        got = real_weights_tetra(efs, e, der, acc, U_MC)
-        gotp = real_weights_tetra(efs, perm, der, acc, U_MC)
+        inputs = dict(corners=list(e), permuted=perm, efs=efs, unit=U_MC, der=der, accurate=acc)
+        ok1, got = lib_call(rep, "weights_tetra", inputs, real_weights_tetra, efs, e, der, acc, U_MC)
+        ok2, gotp = lib_call(rep, "weights_tetra", inputs, real_weights_tetra, efs, perm, der, acc, U_MC)
         distinct = len(set(e)) == 4
         tol = TOL_DISTINCT if distinct else TOL_COINCIDENT
         branch = "accurate" if (acc and der == 0) else "poly"
-        for s, g, gp in zip(adm, got, gotp):
+        for i, s in enumerate(adm):
             exp = frac(s["w"])
+            alt = frac(s["alt"])
             classes["distinct" if distinct else "coincident"] += 1
             classes[branch] += 1
+            classes["one_sided"] += alt != exp
             if s["ef"] in e:
                 classes["on_simple_corner"] += 1
             rep.case(("tetra", e, s["ef"], der, acc), nontrivial=min(e) <= s["ef"] <= max(e))
-            if exp is None:
+            if exp is None or alt is None:
                 raise MachineryError("admissible state without a value")
-            if abs(g - float(exp)) > tol or abs(gp - float(exp)) > tol:
-                rep.violation(f"weights_tetra:{branch}:der{der}:" + ("distinct" if distinct else "coincident"),
-                              dict(corners=list(e), permuted=perm, ef=s["ef"], unit=U_MC, der=der, accurate=acc,
-                                   expected=[exp.numerator, exp.denominator], got_times_unit_pow_der=float(g), got_permuted=float(gp), tol=tol))
+            if ok1 and ok2 and got.shape == (len(adm),) and gotp.shape == (len(adm),):
+                g, gp = got[i], gotp[i]
+                # where the derivative jumps (der 3 on a simple corner) either one-sided value is accepted, the same for both orders
+                if not any(abs(g - float(x)) <= tol and abs(gp - float(x)) <= tol for x in {exp, alt}):
+                    rep.violation(f"weights_tetra:{branch}:der{der}:" + ("distinct" if distinct else "coincident"),
+                                  dict(corners=list(e), permuted=perm, ef=s["ef"], unit=U_MC, der=der, accurate=acc,
+                                       expected=[exp.numerator, exp.denominator], other_one_sided_value=[alt.numerator, alt.denominator],
+                                       got_times_unit_pow_der=float(g), got_permuted=float(gp), tol=tol))
+            elif ok1 and ok2:
+                rep.violation(f"weights_tetra:{branch}:der{der}:shape", dict(inputs, got_shape=list(got.shape)))
             if s["welldef"]:
                 if py_closed(e, s["ef"], der) != frac(s["closed"]):
                     raise MachineryError(f"Python copy of ClosedOcc differs from the specification at {e} {s['ef']} der={der}")
@@ -172,8 +251,8 @@ def part_tetra(rep, res, rng):
         if len(rep.cov["samples"]) < 2:
             s = adm[len(adm) // 2]
             rep.sample(dict(fn="weights_tetra", corners=list(e), ef=s["ef"], der=der, accurate=acc, unit=U_MC, exact=list(s["w"])))
-    for k in ("distinct", "coincident", "on_simple_corner", "excluded", "accurate", "poly"):
-        if classes[k] == 0:
+    for k, v in classes.items():
+        if v == 0:
             raise MachineryError(f"vacuous replay class {k}")
     rep.part("c14_tetra_replay", **classes)
     return mc_oracle
@@ -185,7 +264,7 @@ def part_oracle_numeric(rep, mc_oracle, rng):
     n = 40000
     lam = gen.dirichlet(np.ones(4), size=n)
     worst = 0.0
-    pick = mc_oracle if len(mc_oracle) < 400 else rng.sample(mc_oracle, 400)
+    pick = mc_oracle if len(mc_oracle) < 300 else rng.sample(mc_oracle, 300)
     bad = 0
     for e, ef, exact in pick:
         est = float(np.mean(lam @ np.array(e, dtype=float) <= ef))
@@ -200,15 +279,17 @@ def part_oracle_numeric(rep, mc_oracle, rng):
 
 
 def part_near_coincident(rep, thorough, rng):
-    """nearly coincident corners (gaps 2^-10 .. 2^-46, not representable in TLC's integers): the code moves corners closer than 1e-12 up
-    by at most 3e-12, and the occupation is monotone in every corner, hence exact(ef - 4e-12) <= weights_tetra(ef) <= exact(ef) must hold
-    for the accurate branch whatever the gaps (exact = ClosedOcc in Fractions of the binary inputs). The polynomial branch (der >= 1) is
-    only measured (numeric_only): for Fermi levels outside the tiny intervals between nearly coincident corners."""
+    """floating-point part outside TLC (decides): nearly coincident corners (gaps 2^-10 .. 2^-46, not representable in TLC's integers)
+    on the accurate branch.  An implementation may move nearly coincident corners a little (the code: up by at most 3e-12) and the
+    occupation is monotone in every corner, hence exact(ef - d) - 1e-9 <= weights_tetra(ef) <= exact(ef + d) + 1e-9 with d = 1e-9 must
+    hold whatever the gaps and the direction of the nudge (exact = ClosedOcc in Fractions of the binary inputs).  Also: Fermi level
+    exactly on a coincident pair / triple of corners, where the occupation is continuous (accurate branch, 1e-5).  The polynomial
+    branch (der >= 1) is only measured (numeric_only): for Fermi levels outside the tiny intervals between nearly coincident corners."""
     from wannierberri.grid.tetrahedron import weights_tetra
     n = bad = 0
     worst_poly = {1: 0.0, 2: 0.0, 3: 0.0}
-    shift = Fraction(4, 10 ** 12)
-    for it in range(3000 if thorough else 400):
+    shift = Fraction(1, 10 ** 9)
+    for it in range(3000 if thorough else 300):
         g = 2.0 ** -rng.choice([10, 20, 28, 34, 38, 40, 42, 46])
         base = [rng.randint(0, 4) * 0.125 for _ in range(4)]
         idx = rng.sample(range(4), rng.randint(2, 4))
@@ -218,100 +299,179 @@ def part_near_coincident(rep, thorough, rng):
         srt = sorted(e)
         fe = [Fraction(t) for t in e]
         cands = [srt[0] - 0.0625, srt[3] + 0.0625] + [(a + b) / 2 for a, b in zip(srt, srt[1:]) if b > a] + [srt[1] + g / 4, srt[2] - g / 4, srt[0], srt[3]]
-        got = weights_tetra(np.array(cands), *e, der=0)
-        for x, gv in zip(cands, got):
-            fx = Fraction(x)
-            if all(t == fx for t in fe) or all(t == fx - shift for t in fe):
-                continue
-            hi = float(py_closed(fe, fx, 0))
-            lo = float(py_closed(fe, fx - shift, 0))
-            n += 1
-            rep.case(("near", tuple(e), x), nontrivial=srt[0] <= x <= srt[3])
-            if not (lo - 1e-9 <= gv <= hi + 1e-9):
-                bad += 1
-                rep.violation("weights_tetra:accurate:nearly_coincident", dict(corners=e, ef=x, exact_at_ef_minus_4e_12=lo, got=float(gv), exact_at_ef=hi,
-                                                                              note="expected lo - 1e-9 <= got <= hi + 1e-9"))
+        inputs = dict(corners=e, efs=cands, der=0)
+        ok, got = lib_call(rep, "weights_tetra", inputs, lambda: np.array(weights_tetra(np.array(cands), *e, der=0), dtype=float))
+        if ok:
+            for x, gv in zip(cands, got):
+                fx = Fraction(x)
+                hi = float(py_closed(fe, fx + shift, 0))
+                lo = float(py_closed(fe, fx - shift, 0))
+                n += 1
+                rep.case(("near", tuple(e), x), nontrivial=srt[0] <= x <= srt[3])
+                if not (lo - 1e-9 <= gv <= hi + 1e-9):
+                    bad += 1
+                    rep.violation("weights_tetra:accurate:nearly_coincident", dict(corners=e, ef=x, exact_at_ef_minus_1e_9=lo, got=float(gv), exact_at_ef_plus_1e_9=hi,
+                                                                                  note="expected lo - 1e-9 <= got <= hi + 1e-9"))
         wide = [srt[0] - 0.0625, srt[3] + 0.0625] + [(a + b) / 2 for a, b in zip(srt, srt[1:]) if b - a >= 0.0625]
         for der in (1, 2, 3):
-            gd = weights_tetra(np.array(wide), *e, der=der)
+            try:
+                gd = weights_tetra(np.array(wide), *e, der=der)
+            except Exception:
+                continue          # measured only
             for x, gv in zip(wide, gd):
                 ex = float(py_closed(fe, Fraction(x), der))
                 worst_poly[der] = max(worst_poly[der], abs(gv - ex) / max(1.0, abs(ex)))
-    if n == 0:
+    if n == 0 and not rep.violations:
         raise MachineryError("no nearly coincident case")
-    rep.part("numeric_only_near_coincident", accurate_branch_bracket_cases=n, outside_bracket=bad,
-             polynomial_branch_worst_relative_deviation_away_from_tiny_intervals={f"der{k}": float(v) for k, v in worst_poly.items()})
+    # Fermi level exactly on a coincident pair / triple (multiplicity 2 or 3): the occupation is continuous there
+    nd = worst_d = 0
+    for it in range(600 if thorough else 150):
+        v = rng.randint(0, 8)
+        mult = rng.choice([2, 3])
+        e = [v] * mult + [rng.choice([x for x in range(9) if x != v]) for _ in range(4 - mult)]
+        rng.shuffle(e)
+        ef = v * U_REC
+        ee = [x * U_REC for x in e]
+        ok, got = lib_call(rep, "weights_tetra", dict(corners=ee, ef=ef, der=0), lambda: float(weights_tetra(np.array([ef]), *ee, der=0)[0]))
+        if not ok:
+            continue
+        exact = float(py_closed(e, v, 0))
+        nd += 1
+        worst_d = max(worst_d, abs(got - exact))
+        rep.case(("on_degenerate", tuple(e), v))
+        if abs(got - exact) > TOL_COINCIDENT:
+            rep.violation("weights_tetra:accurate:level_on_coincident_corners",
+                          dict(corners=ee, ef=ef, multiplicity=e.count(v), expected=exact, got=got, tol=TOL_COINCIDENT,
+                               note="the volume fraction is continuous at a corner value of multiplicity <= 3"))
+    if nd == 0 and not rep.violations:
+        raise MachineryError("no case with the Fermi level on coincident corners")
+    rep.part("float_near_coincident", accurate_branch_bracket_cases=n, outside_bracket=bad, level_on_coincident_corners_cases=nd,
+             level_on_coincident_corners_worst_deviation=worst_d)
+    rep.part("numeric_only_polynomial_branch", worst_relative_deviation_away_from_tiny_intervals={f"der{k}": float(v) for k, v in worst_poly.items()})
 
 
 # --------------------------------------------------------------------------------------------------------------------
 def paral_jobs(thorough):
     if thorough:
-        consts = dict(TWVariant='"code"', CVALS="{0, 2}", CENTERS="{0, 1, 2, 3}", EFS1="{0, 1, 2, 3, 4}")
+        jobs = {"c14_paral": dict(TWVariant='"code"', CVALS="{0, 2}", CENTERS="{0, 1, 2, 3}", EFS1="{0, 1, 2, 3, 4}", DERS="{0, 1, 2, 3}", CUBELIM=256),
+                "c14_paral_b": dict(TWVariant='"code"', CVALS="{0, 4}", CENTERS="{1, 2, 3}", EFS1="{2, 3, 4}", DERS="{0, 1, 2, 3}", CUBELIM=256)}
     else:
-        consts = dict(TWVariant='"code"', CVALS="{0, 2}", CENTERS="{1}", EFS1="{2, 3}")
-    jobs = {"c14_paral": ("MC_TetraParal.tla", cfg_of(consts, INV_PARAL), True)}
-    if thorough:
-        jobs["c14_paral_b"] = ("MC_TetraParal.tla", cfg_of(dict(TWVariant='"code"', CVALS="{0, 4}", CENTERS="{1, 2, 3}", EFS1="{2, 3, 4}"), INV_PARAL), True)
-    return jobs
+        # corners 0 / 4, centre 1 or 3, Fermi levels 1, 2, 3: on the centre, strictly between centre and corners
+        jobs = {"c14_paral": dict(TWVariant='"code"', CVALS="{0, 4}", CENTERS="{1, 3}", EFS1="{2, 3, 4}", DERS="{0, 1, 2, 3}", CUBELIM=48)}
+    return {k: ("MC_TetraParal.tla", cfg_of(v, INV_PARAL), True) for k, v in jobs.items()}
 
 
-def part_paral(rep, res, rng):
+def one_band_paral(ec, c, unit):
     from wannierberri.grid.tetrahedron import TetraWeightsParal
-    n_adm = n_exc = n_in = n_calc = n_low = 0
+    return TetraWeightsParal(eCenter=np.array([[ec * unit]]), eCorners=(np.array(c, dtype=float) * unit)[None, :, :, :, None])
+
+
+def paral_weight_public(ec, c, efs, der, unit):
+    """the weight of the single band through weights_all_band_groups (no degeneracy grouping): group weight, completion -> 1, absent -> 0"""
+    tw = one_band_paral(ec, c, unit)
+    ef = np.array(efs, dtype=float) * unit
+    res = tw.weights_all_band_groups(ef, der=der, degen_thresh=-1)
+    pb = expand_per_band([(int(a), int(b), w) for (a, b), w in res[0].items()], 1, len(ef))
+    if pb is None:
+        raise MachineryError(f"weights_all_band_groups of a one-band object returned {res}")
+    return pb[0] * unit ** der
+
+
+def paral_weight_priv(ec, c, efs, der, unit):
+    tw = one_band_paral(ec, c, unit)
+    if not hasattr(tw, "weight_1k1b_priv"):
+        raise PrivateGone("TetraWeightsParal.weight_1k1b_priv")
+    return np.array(tw.weight_1k1b_priv(np.array(efs, dtype=float) * unit, 0, 0, der), dtype=float) * unit ** der
+
+
+def paral_calculator(ec, c, efs, der, unit):
+    from wannierberri.calculators.static import CumDOS, DOS
+    dk = DuckTetraDataK(one_band_paral(ec, c, unit), 1, 1)
+    with quiet():
+        res = (CumDOS if der == 0 else DOS)(Efermi=np.array(efs, dtype=float) * unit, tetra=True)(dk)
+    return np.array(res.data, dtype=float) * unit ** der
+
+
+def paral_verdict(got, exact, lo, hi, planar):
+    """planar faces: the value is fixed; otherwise anything between the face-wise bounds"""
+    if planar:
+        return abs(got - float(exact)) <= TOL_COINCIDENT
+    return float(lo) - TOL_COINCIDENT <= got <= float(hi) + TOL_COINCIDENT
+
+
+def part_paral(rep, res, rng, G):
+    cls = dict(admissible=0, excluded=0, inside_band=0, calculators=0, planar=0, nonplanar=0, one_sided_skipped=0, equals_code_diagonal=0,
+               between_centre_and_corner=0)
     states = []
     for name in sorted(k for k in res if k.startswith("c14_paral")):
         ftable.spec_violation(rep, res[name], name)
         rep.add_tlc(name, res[name])
-        states.append(ftable.dump_states(res[name]))
-    import itertools
-    for s in itertools.chain(*states):
+        states += [s for s in ftable.dump_states(res[name]) if s["pc"] == "done"]
+    states.sort(key=lambda s: (repr(s["c"]), s["ec"], s["ef"], s["der"]))
+    n_low = 0
+    for s in states:
         if not s["admissible"]:
-            n_exc += 1
+            cls["excluded"] += 1
             continue
-        n_adm += 1
-        c = np.array(s["c"], dtype=float)          # [x][y][z]
-        tw = TetraWeightsParal(eCenter=np.array([[s["ec"] * U_MC]]), eCorners=(c * U_MC)[None, :, :, :, None])
-        ef = np.array([s["ef"] * U_MC])
-        der = s["der"]
-        got = float(tw.weight_1k1b_priv(ef, 0, 0, der)[0]) * U_MC ** der
+        if not s["welldef"]:
+            cls["one_sided_skipped"] += 1       # der 3 with the level on a simple corner of one of the tetrahedra: one-sided value not demanded
+            continue
+        cls["admissible"] += 1
+        c, ec, ef, der, planar = s["c"], s["ec"], s["ef"], s["der"], s["planar"]
         exp = frac(s["w"])
-        inside = min(c.min(), s["ec"]) <= s["ef"] <= max(c.max(), s["ec"])
-        n_in += int(inside)
-        rep.case(("paral", s["c"], s["ec"], s["ef"], der), nontrivial=bool(inside))
-        if abs(got - float(exp)) > TOL_COINCIDENT:
-            rep.violation(f"TetraWeightsParal.weight_1k1b_priv:der{der}",
-                          dict(corners_xyz=s["c"], centre=s["ec"], ef=s["ef"], unit=U_MC, der=der, expected=[exp.numerator, exp.denominator], got=got))
+        code, lo, hi = paral_bounds(ec, c, ef, der)
+        if code != exp:
+            raise MachineryError(f"Python copy of the 12-tetrahedra mean differs from the specification at {c} {ec} {ef} der={der}")
+        if planar and lo != hi:
+            planar = False          # the level sits on a break point of a tetrahedron of the other split: use the bounds
+        flat = [x for a in c for b in a for x in b]
+        inside = min(flat + [ec]) <= ef <= max(flat + [ec])
+        cls["inside_band"] += int(inside)
+        cls["planar" if planar else "nonplanar"] += 1
+        cls["between_centre_and_corner"] += ef != ec and ef not in flat
+        inputs = dict(corners_xyz=c, centre=ec, ef=ef, unit=U_MC, der=der)
+        detail = dict(inputs, planar_faces=planar, expected=[exp.numerator, exp.denominator], lower=float(lo), upper=float(hi))
+        rep.case(("paral", repr(c), ec, ef, der), nontrivial=bool(inside))
+        for name, site, fn in (("paral_public", "TetraWeightsParal.weights_all_band_groups", paral_weight_public),
+                               ("paral_priv", "TetraWeightsParal.weight_1k1b_priv", paral_weight_priv)):
+            ok, got = G.call(name, site, inputs, fn, ec, c, [ef], der, U_MC)
+            if ok:
+                g = float(got[0])
+                if not paral_verdict(g, exp, lo, hi, planar):
+                    rep.violation(f"{site}:der{der}", dict(detail, got=g))
+                elif name == "paral_public":
+                    cls["equals_code_diagonal"] += abs(g - float(exp)) <= TOL_COINCIDENT
         n_low += der <= 1
         if der <= 1 and n_low % 3 == 0:
             # the same K-point through the real calculators (identity formula): CumDOS / DOS with tetra=True
-            from wannierberri.calculators.static import CumDOS, DOS
-            dk = DuckTetraDataK(TetraWeightsParal(eCenter=np.array([[s["ec"] * U_MC]]), eCorners=(c * U_MC)[None, :, :, :, None]))
-            with quiet():
-                val = float((CumDOS if der == 0 else DOS)(Efermi=ef, tetra=True)(dk).data[0]) * U_MC ** der
-            n_calc += 1
-            rep.case(("paral_calc", s["c"], s["ec"], s["ef"], der), nontrivial=bool(inside))
-            if abs(val - float(exp)) > TOL_COINCIDENT:
-                rep.violation(("CumDOS" if der == 0 else "DOS") + ":tetra:parallelepiped",
-                              dict(corners_xyz=s["c"], centre=s["ec"], ef=s["ef"], unit=U_MC, expected=[exp.numerator, exp.denominator], got=val))
-        if n_adm == 1:
-            rep.sample(dict(fn="TetraWeightsParal.weight_1k1b_priv", corners_xyz=s["c"], centre=s["ec"], ef=s["ef"], der=der, exact=list(s["w"])))
-    if n_adm == 0 or n_exc == 0 or n_in == 0 or n_calc == 0:
-        raise MachineryError(f"vacuous parallelepiped replay: admissible={n_adm} excluded={n_exc} inside={n_in} calculators={n_calc}")
-    rep.part("c14_paral_replay", admissible=n_adm, excluded=n_exc, inside_band=n_in, calculators=n_calc)
+            site = ("CumDOS" if der == 0 else "DOS") + ":tetra:parallelepiped"
+            ok, val = G.call("calculators", site, inputs, paral_calculator, ec, c, [ef], der, U_MC)
+            cls["calculators"] += 1
+            rep.case(("paral_calc", repr(c), ec, ef, der), nontrivial=bool(inside))
+            if ok and not paral_verdict(float(val[0]), exp, lo, hi, planar):
+                rep.violation(site, dict(detail, got=float(val[0])))
+        if cls["admissible"] == 1:
+            rep.sample(dict(fn="TetraWeightsParal (one band)", corners_xyz=c, centre=ec, ef=ef, der=der, exact=list(s["w"])))
+    if not (G.available("paral_public") or G.available("paral_priv")):
+        raise MachineryError("the weight of a parallelepiped K-point is not observable any more (weights_all_band_groups and weight_1k1b_priv)")
+    for k, v in cls.items():
+        if v == 0 and k not in ("equals_code_diagonal", "one_sided_skipped", "excluded"):
+            raise MachineryError(f"vacuous parallelepiped replay class {k}")
+    rep.part("c14_paral_replay", **cls)
 
 
 # --------------------------------------------------------------------------------------------------------------------
-def real_groups(tw, efs_arr, der, th, kr, unit):
+def real_groups(tw, efs_arr, der, th, kr, unit, ik=0):
     res = tw.weights_all_band_groups(efs_arr, der=der, degen_thresh=th * unit, degen_Kramers=kr)
     out = []
-    for (ib1, ib2), w in sorted(res[0].items()):
+    for (ib1, ib2), w in sorted(res[ik].items()):
         out.append((int(ib1), int(ib2), np.array(w, dtype=float) * unit ** max(der, 0)))
     return out
 
 
 def groups_consts(thorough):
     return {"c14_groups_nb2": dict(TWVariant='"code"', NB=2, VALS="{0, 2, 4}" if thorough else "{0, 2}",
-                                   STARTS1="{0, 2, 3, 5}" if thorough else "{0, 1, 2, 4}", STEPS="{2}" if thorough else "{1, 2}", NEF=3, THS="{0, 2}"),
+                                   STARTS1="{0, 2, 3, 5}" if thorough else "{0, 1, 2}", STEPS="{2}", NEF=3, THS="{0, 2}"),
             "c14_groups_nb3": dict(TWVariant='"code"', NB=3, VALS="{0, 2}", STARTS1=tlaset(range(0, 5)) if thorough else "{0, 1, 3}",
                                    STEPS="{1, 2}" if thorough else "{1}", NEF=3, THS="{0, 2}")}
 
@@ -320,34 +480,73 @@ def groups_jobs(thorough):
     return {name: ("MC_TetraGroups.tla", cfg_of(consts, INV_GROUPS), True) for name, consts in groups_consts(thorough).items()}
 
 
-def part_groups(rep, res, thorough, rng):
+def make_tw(states, unit):
     from wannierberri.grid.tetrahedron import TetraWeights
-    from wannierberri.calculators.static import CumDOS, DOS
-    cls = dict(sea_extra_group=0, antisea_extra_group=0, multi_band_group=0, band_left_out=0, calculators=0)
+    ec = np.array([s["ec"] for s in states], dtype=float) * unit                                  # [k, band]
+    cor = np.array([np.array(s["cor"], dtype=float).T for s in states]) * unit                   # [k, corner, band]
+    return TetraWeights(eCenter=ec, eCorners=cor)
+
+
+def exact_per_band(s, efs, der, th, kr):
+    """[band][level]: mean over the degenerate group of the band of the exact weights (Fractions); der -1: 1 - occupation"""
+    nb = len(s["ec"])
+    out = [[None] * len(efs) for _ in range(nb)]
+    for a, b in py_borders(list(s["ec"]), th, kr):
+        for i, x in enumerate(efs):
+            ws = [(1 - py_closed(s["cor"][q], x, 0)) if der == -1 else py_closed(s["cor"][q], x, der) for q in range(a, b)]
+            m = sum(ws, Fraction(0)) / (b - a)
+            for q in range(a, b):
+                out[q][i] = m
+    return out
+
+
+def levels_admissible(efs, states, der):
+    n = max(der, 0)
+    return all(list(cb).count(x) <= 1 and list(cb).count(x) + n <= 3 for s in states for cb in s["cor"] for x in efs)
+
+
+def part_groups(rep, res, thorough, rng, G):
+    cls = dict(sea_extra_group=0, antisea_extra_group=0, multi_band_group=0, band_left_out=0, calculators=0, three_kpoints_two_grids=0,
+               other_group_structure=0)
     for name, consts in groups_consts(thorough).items():
         st = res[name]
         ftable.spec_violation(rep, st, name)
         rep.add_tlc(name, st)
         nb = consts["NB"]
-        for ist, s in enumerate(ftable.dump_states(st)):
-            ec = np.array(s["ec"], dtype=float) * U_MC
-            cor = np.array(s["cor"], dtype=float).T * U_MC             # [corner, band]
+        states = sorted((s for s in ftable.dump_states(st) if s["pc"] == "done"), key=lambda s: (s["ec"], s["cor"], s["efs"], s["th"], s["kr"]))
+        if not states:
+            raise MachineryError(f"no built state in the dump of {name}")
+        for ist, s in enumerate(states):
             efs = np.array(s["efs"], dtype=float) * U_MC
             th, kr = s["th"], s["kr"]
-            tw = TetraWeights(eCenter=ec[None, :], eCorners=cor[None, :, :])
             key0 = ("groups", s["ec"], s["cor"], s["efs"], th, kr)
-            for der, G in ((0, s["G0"]), (-1, s["Gm"]), (1, s["G1"])):
-                exp = sorted((g[0], g[1], [Fraction(x[0], x[1]) for x in g[2]]) for g in G)
-                got = real_groups(tw, efs, der, th, kr, U_MC)
+            base = dict(eCenter=s["ec"], eCorners_per_band=s["cor"], efs=s["efs"], unit=U_MC, th=th, kramers=kr)
+            ok, tw = lib_call(rep, "TetraWeights", base, make_tw, [s], U_MC)
+            if not ok:
+                continue
+            for der, Gs in ((0, s["G0"]), (-1, s["Gm"]), (1, s["G1"])):
+                exp = sorted((g[0], g[1], [Fraction(x[0], x[1]) for x in g[2]]) for g in Gs)
+                exp_pb = expand_per_band([(a, b, [float(x) for x in w]) for a, b, w in exp], nb, len(efs))
+                inputs = dict(base, der=der)
+                ok, got = lib_call(rep, "weights_all_band_groups", inputs, real_groups, tw, efs, der, th, kr, U_MC)
                 rep.case(key0 + (der,), nontrivial=len(exp) > 0)
-                ok = [(a, b) for a, b, _ in exp] == [(a, b) for a, b, _ in got]
                 if ok:
-                    ok = all(abs(float(x) - y) <= TOL_COINCIDENT for ge, gg in zip(exp, got) for x, y in zip(ge[2], gg[2]))
-                if not ok:
-                    rep.violation(f"weights_all_band_groups:der{der}",
-                                  dict(eCenter=s["ec"], eCorners_per_band=s["cor"], efs=s["efs"], unit=U_MC, th=th, kramers=kr, der=der,
-                                       expected=[(a, b, [[x.numerator, x.denominator] for x in w]) for a, b, w in exp],
-                                       got=[(a, b, [float(x) for x in w]) for a, b, w in got]))
+                    got_pb = expand_per_band(got, nb, len(efs))
+                    why = None
+                    if got_pb is None:
+                        why = "overlapping or malformed groups"
+                    elif np.any(np.abs(got_pb - exp_pb) > TOL_COINCIDENT):
+                        why = "per-band weights differ"
+                    else:
+                        cut = splits_degenerate_group(got, s["ec"], th, kr)
+                        if cut:
+                            why = f"the listed group {cut[0]} cuts the degenerate group {cut[1]}"
+                    if why:
+                        rep.violation(f"weights_all_band_groups:der{der}",
+                                      dict(inputs, why=why, expected_per_band=exp_pb.tolist(), got=[(a, b, [float(x) for x in w]) for a, b, w in got],
+                                           code_as_it_is_groups=[(a, b, [[x.numerator, x.denominator] for x in w]) for a, b, w in exp]))
+                    elif [(a, b) for a, b, _ in exp] != [(a, b) for a, b, _ in got]:
+                        cls["other_group_structure"] += 1        # information: same per-band weights, another way of listing the groups
                 if any(b - a > 1 for a, b, _ in exp):
                     cls["multi_band_group"] += 1
                 if sum(b - a for a, b, _ in exp) < nb:
@@ -362,39 +561,66 @@ def part_groups(rep, res, thorough, rng):
             # the real calculators (identity formula): CumDOS / DOS with tetra=True on a duck data_K holding this TetraWeights
             if ist % (3 if thorough else 2) == 0:
                 cls["calculators"] += 1
-                dk = DuckTetraDataK(TetraWeights(eCenter=ec[None, :], eCorners=cor[None, :, :]))
-                with quiet():
-                    cum = CumDOS(Efermi=efs, tetra=True, degen_thresh=th * U_MC, degen_Kramers=kr)(dk).data
-                    dos = DOS(Efermi=efs, tetra=True, degen_thresh=th * U_MC, degen_Kramers=kr)(dk).data * U_MC
-                for i in range(len(efs)):
-                    e0 = sum((g[1] - g[0]) * Fraction(g[2][i][0], g[2][i][1]) for g in s["G0"])
-                    e1 = sum((g[1] - g[0]) * Fraction(g[2][i][0], g[2][i][1]) for g in s["G1"])
-                    rep.case(key0 + ("calc", i))
-                    if abs(float(cum[i]) - float(e0)) > TOL_COINCIDENT * nb:
-                        rep.violation("CumDOS:tetra", dict(eCenter=s["ec"], eCorners_per_band=s["cor"], efs=s["efs"], unit=U_MC, th=th, kramers=kr,
-                                                           level=i, expected=[e0.numerator, e0.denominator], got=float(cum[i])))
-                    if abs(float(dos[i]) - float(e1)) > TOL_COINCIDENT * nb:
-                        rep.violation("DOS:tetra", dict(eCenter=s["ec"], eCorners_per_band=s["cor"], efs=s["efs"], unit=U_MC, th=th, kramers=kr,
-                                                        level=i, expected_times_unit=[e1.numerator, e1.denominator], got_times_unit=float(dos[i])))
-                    allc = emin + emax
-                    if s["efs"][i] < min(allc) and float(cum[i]) != 0.0:
-                        rep.violation("CumDOS:tetra:below_all_bands", dict(eCenter=s["ec"], eCorners_per_band=s["cor"], efs=s["efs"], got=float(cum[i])))
-                    if s["efs"][i] > max(allc) and abs(float(cum[i]) - nb) > 1e-12:
-                        rep.violation("CumDOS:tetra:above_all_bands", dict(eCenter=s["ec"], eCorners_per_band=s["cor"], efs=s["efs"], got=float(cum[i]), num_wann=nb))
+
+                def calcs():
+                    from wannierberri.calculators.static import CumDOS, DOS
+                    dk = DuckTetraDataK(make_tw([s], U_MC), 1, nb)
+                    with quiet():
+                        cum = CumDOS(Efermi=efs, tetra=True, degen_thresh=th * U_MC, degen_Kramers=kr)(dk).data
+                        dos = DOS(Efermi=efs, tetra=True, degen_thresh=th * U_MC, degen_Kramers=kr)(dk).data * U_MC
+                    return np.array(cum, dtype=float), np.array(dos, dtype=float)
+                ok, cd = G.call("calculators", "CumDOS/DOS:tetra", base, calcs)
+                if ok:
+                    cum, dos = cd
+                    for i in range(len(efs)):
+                        e0 = sum((g[1] - g[0]) * Fraction(g[2][i][0], g[2][i][1]) for g in s["G0"])
+                        e1 = sum((g[1] - g[0]) * Fraction(g[2][i][0], g[2][i][1]) for g in s["G1"])
+                        rep.case(key0 + ("calc", i))
+                        if abs(float(cum[i]) - float(e0)) > TOL_COINCIDENT * nb:
+                            rep.violation("CumDOS:tetra", dict(base, level=i, expected=[e0.numerator, e0.denominator], got=float(cum[i])))
+                        if abs(float(dos[i]) - float(e1)) > TOL_COINCIDENT * nb:
+                            rep.violation("DOS:tetra", dict(base, level=i, expected_times_unit=[e1.numerator, e1.denominator], got_times_unit=float(dos[i])))
+                        allc = emin + emax
+                        if s["efs"][i] < min(allc) and abs(float(cum[i])) > 1e-12:
+                            rep.violation("CumDOS:tetra:below_all_bands", dict(base, got=float(cum[i])))
+                        if s["efs"][i] > max(allc) and abs(float(cum[i]) - nb) > 1e-12:
+                            rep.violation("CumDOS:tetra:above_all_bands", dict(base, got=float(cum[i]), num_wann=nb))
+            # weight cache: one object with three k-points, two Fermi arrays, derivative orders 0, 1, 1, 0, 0
+            if ist % (8 if thorough else 5) == 0:
+                trio = [s, states[(ist + 37) % len(states)], states[(ist + 101) % len(states)]]
+                efA = list(s["efs"])
+                efB = [x + 2 for x in efA]
+                if len({(t["ec"], t["cor"]) for t in trio}) >= 2 and levels_admissible(efA + efB, trio, 1):
+                    ok, tw3 = lib_call(rep, "TetraWeights", dict(states=[t["ec"] for t in trio]), make_tw, trio, U_MC)
+                    arrA, arrB = np.array(efA, dtype=float) * U_MC, np.array(efB, dtype=float) * U_MC
+                    for step, (efl, arr, der) in enumerate(((efA, arrA, 0), (efB, arrB, 1), (efA, arrA, 1), (efB, arrB, 0), (efA, arrA, 0))):
+                        if not ok:
+                            break
+                        for ik, t in enumerate(trio):
+                            inputs = dict(k_points=[dict(eCenter=q["ec"], eCorners_per_band=q["cor"]) for q in trio], ik=ik, efs=efl, der=der, th=th,
+                                          kramers=kr, unit=U_MC, query_number=step, queries="(A,0) (B,1) (A,1) (B,0) (A,0) on one object")
+                            ok2, got = lib_call(rep, "weights_all_band_groups", inputs, real_groups, tw3, arr, der, th, kr, U_MC, ik)
+                            if not ok2:
+                                continue
+                            want = np.array([[float(x) for x in row] for row in exact_per_band(t, efl, der, th, kr)])
+                            got_pb = expand_per_band(got, nb, len(efl))
+                            rep.case(key0 + ("cache", step, ik))
+                            if got_pb is None or np.any(np.abs(got_pb - want) > TOL_COINCIDENT):
+                                rep.violation(f"weights_all_band_groups:several_kpoints_and_grids:der{der}",
+                                              dict(inputs, expected_per_band=want.tolist(), got=[(a, b, [float(x) for x in w]) for a, b, w in got]))
+                    cls["three_kpoints_two_grids"] += 1
             if ist == 0:
                 rep.sample(dict(fn="weights_all_band_groups", eCenter=s["ec"], eCorners_per_band=s["cor"], efs=s["efs"], th=th, kramers=kr,
                                 sea_groups=[[g[0], g[1], [list(x) for x in g[2]]] for g in s["G0"]]))
     for k, v in cls.items():
-        if v == 0:
+        if v == 0 and k != "other_group_structure":
             raise MachineryError(f"vacuous group-completion class {k}")
     rep.part("c14_groups_replay", **cls)
 
 
 # --------------------------------------------------------------------------------------------------------------------
 def to8(x):
-    v = float(x) * 1e8
-    r = int(round(v))
-    return r
+    return int(round(float(x) * 1e8))
 
 
 def admissible_levels(cands, tetras, der):
@@ -406,14 +632,17 @@ def admissible_levels(cands, tetras, der):
     return out
 
 
-def part_records(rep, thorough, rng):
-    from wannierberri.grid.tetrahedron import TetraWeights, TetraWeightsParal
+def part_records(rep, thorough, rng, G):
     recs = []
-    nrec = 2500 if thorough else 320
-    stats = dict(tetra=0, paral=0, groups=0, coincident=0, large_magnitude=0)
+    nrec = 2500 if thorough else 200
+    stats = dict(tetra=0, paral=0, groups=0, coincident=0, large_magnitude=0, groups_der23=0)
+    tries = 0
     while len(recs) < nrec:
+        tries += 1
+        if tries > 60 * nrec:
+            break
         r = rng.random()
-        if r < 0.6:
+        if r < 0.55:
             der = rng.randint(0, 3)
             acc = rng.random() < 0.6
             accurate_branch = acc and der == 0
@@ -427,32 +656,34 @@ def part_records(rep, thorough, rng):
                 continue
             distinct = len(set(e)) == 4
             tol8 = (1 if accurate_branch else 10) if distinct else 1000
-            got = real_weights_tetra(efs, e, der, acc, U_REC)
+            ok, got = lib_call(rep, "weights_tetra", dict(corners=e, efs=efs, der=der, accurate=acc, unit=U_REC), real_weights_tetra, efs, e, der, acc, U_REC)
+            if not ok or got.shape != (len(efs),):
+                continue
             recs.append(dict(fn="tetra", e=e, efs=efs, der=der, acc=acc, tol8=tol8, got8=[to8(g) for g in got]))
             stats["coincident"] += not distinct
             stats["large_magnitude"] += abs(base) >= 100
-        elif r < 0.8:
+        elif r < 0.75:
+            if not (G.available("paral_public") or G.available("paral_priv")):
+                continue
             der = rng.randint(0, 3)
             base = rng.choice([0, 8, 24]) * rng.choice([-1, 1])
             span = rng.randint(1, 6)
             c = [[[base + rng.randint(0, span) for _ in range(2)] for _ in range(2)] for _ in range(2)]
             flat = [c[x][y][z] for x in range(2) for y in range(2) for z in range(2)]
             ec = rng.choice([sum(flat) // 8, base + rng.randint(0, span)])
-            tw = TetraWeightsParal(eCenter=np.array([[ec * U_REC]]), eCorners=(np.array(c, dtype=float) * U_REC)[None, :, :, :, None])
-            tetras = []
-            for iface in (0, 1):
-                a = np.array(c)
-                for f in (a[iface, :, :], a[:, iface, :], a[:, :, iface]):
-                    tetras.append([ec, int(f[0, 0]), int(f[0, 1]), int(f[1, 1])])
-                    tetras.append([ec, int(f[0, 0]), int(f[1, 0]), int(f[1, 1])])
+            tetras = [[int(v) for v in t] for pair in face_pairs(ec, c) for split in pair for t in split]
             efs = admissible_levels(sorted(set(rng.randint(min(flat + [ec]) - 1, max(flat + [ec]) + 1) for _ in range(5))), tetras, der)
             if not efs:
                 continue
-            got = tw.weight_1k1b_priv(np.array(efs, dtype=float) * U_REC, 0, 0, der) * U_REC ** der
+            inputs = dict(corners_xyz=c, centre=ec, efs=efs, der=der, unit=U_REC)
+            name = "paral_public" if G.available("paral_public") else "paral_priv"
+            ok, got = G.call(name, "TetraWeightsParal", inputs, paral_weight_public if name == "paral_public" else paral_weight_priv, ec, c, efs, der, U_REC)
+            if not ok:
+                continue
             recs.append(dict(fn="paral", c=c, ec=ec, efs=efs, der=der, tol8=1000, got8=[to8(g) for g in got]))
         else:
             nb = rng.randint(1, 4)
-            der = rng.choice([0, 0, -1, 1, 2])
+            der = rng.choice([0, 0, -1, 1, 2, 3])
             base = rng.choice([0, 8, 16]) * rng.choice([-1, 1])
             cols = [sorted(base + rng.randint(0, 8) for _ in range(nb)) for _ in range(5)]     # ordered at centre and every corner
             ec = [cols[0][b] for b in range(nb)]
@@ -464,70 +695,194 @@ def part_records(rep, thorough, rng):
             efs = [a0 + i * d for i in range(rng.randint(2, 5))]
             if admissible_levels(efs, cor, der) != efs:
                 continue
-            tw = TetraWeights(eCenter=np.array(ec, dtype=float)[None, :] * U_REC, eCorners=np.array(cor, dtype=float).T[None, :, :] * U_REC)
-            got = real_groups(tw, np.array(efs, dtype=float) * U_REC, der, th, kr, U_REC)
+            inputs = dict(eCenter=ec, eCorners_per_band=cor, efs=efs, der=der, th=th, kramers=kr, unit=U_REC)
+            ok, got = lib_call(rep, "weights_all_band_groups", inputs,
+                               lambda: real_groups(make_tw([dict(ec=ec, cor=cor)], U_REC), np.array(efs, dtype=float) * U_REC, der, th, kr, U_REC))
+            if not ok:
+                continue
+            if expand_per_band(got, nb, len(efs)) is None:
+                rep.violation(f"weights_all_band_groups:recorded:der{der}", dict(inputs, why="overlapping or malformed groups",
+                                                                                got=[(a, b, [float(x) for x in w]) for a, b, w in got]))
+                continue
             recs.append(dict(fn="groups", ec=ec, cor=cor, efs=efs, der=der, th=th, kr=kr, tol8=1000,
                              out=[[a, b, [to8(x) for x in w]] for a, b, w in got]))
+            stats["groups_der23"] += der >= 2
         stats[recs[-1]["fn"]] += 1
         rep.case(("rec", len(recs), recs[-1]["fn"], str(recs[-1].get("e", recs[-1].get("ec"))), tuple(recs[-1]["efs"]), recs[-1]["der"]))
-    for k, v in stats.items():
-        if v == 0:
-            raise MachineryError(f"vacuous record class {k}")
-    stv, bad = validate_parallel("TetraWeightsRec.tla", REC_CFG, recs, "c14", 8)
+    if not recs:
+        return
+    if not rep.violations:
+        for k, v in stats.items():
+            if v == 0:
+                raise MachineryError(f"vacuous record class {k}")
+    stv, bad = validate_parallel("TetraWeightsRec.tla", REC_CFG, recs, "c14", 3)
     rep.add_tlc("c14_records", stv)
     rep.add_traces(len(recs))
     rep.part("c14_records", **stats)
-    for i, clauses in bad.items():
+    for i, clauses in sorted(bad.items()):
         r = recs[i]
         if "admissible" in clauses:
             raise MachineryError(f"the harness recorded an inadmissible input: {r}")
-        fnname = {"tetra": "weights_tetra", "paral": "TetraWeightsParal.weight_1k1b_priv", "groups": "weights_all_band_groups"}[r["fn"]]
+        fnname = {"tetra": "weights_tetra", "paral": "TetraWeightsParal", "groups": "weights_all_band_groups"}[r["fn"]]
         rep.violation(f"{fnname}:recorded:der{r['der']}", dict(record=r, failing_clauses=clauses, unit=U_REC,
                                                               note="got8 = round(value * unit^der * 1e8), tol8 in 1e-8"))
     rep.sample(recs[0])
     # binding self-test: corrupted records must be rejected
     for fn, corrupt in (("tetra", lambda q: q["got8"].__setitem__(0, q["got8"][0] + 5000)),
-                        ("groups", lambda q: q["out"].pop())):
+                        ("groups", lambda q: q["out"][0][2].__setitem__(0, q["out"][0][2][0] + 5000))):
         cand = [r for r in recs if r["fn"] == fn and (fn != "groups" or len(r["out"]) > 0)][:1]
         if not cand:
             raise MachineryError(f"no record for the self-test of {fn}")
         b = copy.deepcopy(cand)
         corrupt(b[0])
-        _, b2 = ftable.validate_records("TetraWeightsRec.tla", REC_CFG, b, "c14_selftest")
+        _, b2 = validate_records("TetraWeightsRec.tla", REC_CFG, b, "c14_selftest")
         if 0 not in b2:
             raise MachineryError(f"binding self-test failed: corrupted {fn} record accepted")
         rep.part("binding_selftest_" + fn, corrupted_record_rejected=b2[0])
+
+
+# --------------------------------------------------------------------------------------------------------------------
+REAL_TOL = 1e-7
+
+
+def tiny_model():
+    import pythtb
+    lattice = pythtb.Lattice(lat_vecs=np.eye(3), orb_vecs=[[0, 0, 0], [0.5, 0.5, 0.5]], periodic_dirs=[0, 1, 2])
+    m = pythtb.TBModel(lattice)
+    m.set_onsite([-0.3, 0.4])
+    m.set_hop(-1.0, 0, 1, [0, 0, 0])
+    m.set_hop(-0.6, 0, 1, [1, 0, 0])
+    m.set_hop(-0.35, 0, 1, [0, 1, 0])
+    m.set_hop(0.25, 0, 1, [0, 0, 1])
+    m.set_hop(0.15, 0, 0, [1, 0, 0])
+    m.set_hop(0.1 + 0.05j, 1, 1, [0, 1, 1])
+    return m
+
+
+def part_real_run(rep):
+    """the weights object of real K-points (Data_K.tetraWeights: E_K, corner energies of the parallelepiped around each k-point, class
+    TetraWeightsParal) through wb.run(CumDOS / DOS, tetra=True) on a two-band pythtb model without symmetry, 4x4x2 k-points.  Expected:
+    mean over k-points and bands of the 12-tetrahedra weight of the box k +- dk/2, with the eigenvalues taken from pythtb directly (not from
+    wannierberri) and the closed form in exact Fractions; any choice of face diagonals is accepted (lower / upper bounds).  Floating point,
+    tolerance 1e-7.  Sensitivity: the same computation with boxes k +- dk must leave the accepted band at some level."""
+    import shutil
+    wd = os.path.join(WORK, uniq("c14_real"))
+    NK = [4, 4, 2]
+    ef = np.array([-3.0, -1.75, -1.25, -0.5, 0.0, 0.75, 1.5, 2.25, 3.5])
+    try:
+        try:
+            import wannierberri as wb
+            from wannierberri.calculators.static import CumDOS, DOS
+            m = tiny_model()
+            m.solve_ham
+        except (ImportError, AttributeError, TypeError) as ex:
+            rep.part("real_run", skipped=f"{type(ex).__name__}: {str(ex)[:200]}")
+            return
+        os.makedirs(wd, exist_ok=True)
+
+        def run():
+            with quiet():
+                system = wb.system.System_R.from_pythtb(m)
+                grid = wb.Grid(system, NK=NK, NKFFT=[2, 2, 2])
+                res = wb.run(system, grid=grid, calculators={"cum": CumDOS(Efermi=ef, tetra=True), "dos": DOS(Efermi=ef, tetra=True)},
+                             adpt_num_iter=0, use_irred_kpt=False, symmetrize=False, fout_name=os.path.join(wd, "x"), dump_results=False, parallel=False)
+            return np.array(res.results["cum"].data, dtype=float), np.array(res.results["dos"].data, dtype=float)
+        inputs = dict(model="pythtb cubic lattice, orbitals (0,0,0) (1/2,1/2,1/2), onsite -0.3/0.4, hops see c14.tiny_model", NK=NK, Efermi=ef.tolist())
+        ok, got = lib_call(rep, "run:CumDOS/DOS:tetra", inputs, run)
+        if not ok:
+            return
+
+        def bounds(scale):
+            ks = [np.array([i / NK[0], j / NK[1], l / NK[2]]) for i in range(NK[0]) for j in range(NK[1]) for l in range(NK[2])]
+            dK = np.array([1.0 / n for n in NK]) * scale
+            pts = []
+            for k in ks:
+                pts.append(k)
+                for sgn in itertools.product((0, 1), repeat=3):
+                    pts.append(k + (np.array(sgn) - 0.5) * dK)
+            E = np.array(m.solve_ham(np.array(pts)), dtype=float).reshape(len(ks), 9, -1)
+            E = np.sort(E, axis=-1)
+            lo = np.zeros((2, len(ef)))
+            hi = np.zeros((2, len(ef)))
+            for ik in range(len(ks)):
+                for b in range(E.shape[2]):
+                    c = E[ik, 1:, b].reshape(2, 2, 2)
+                    for der in (0, 1):
+                        for ie, x in enumerate(ef):
+                            _, l, h = paral_bounds(E[ik, 0, b], c, x, der)
+                            lo[der, ie] += float(l)
+                            hi[der, ie] += float(h)
+            return lo / len(ks), hi / len(ks), E
+        lo, hi, E = bounds(1.0)
+        worst = 0.0
+        for der, name in ((0, "CumDOS"), (1, "DOS")):
+            g = got[der]
+            if g.shape != ef.shape:
+                rep.violation(f"real_run:{name}:tetra:shape", dict(inputs, got_shape=list(g.shape)))
+                continue
+            for ie in range(len(ef)):
+                rep.case(("real_run", name, ie), nontrivial=hi[der, ie] > 0)
+                out = max(lo[der, ie] - g[ie], g[ie] - hi[der, ie], 0.0)
+                worst = max(worst, out)
+                if out > REAL_TOL:
+                    rep.violation(f"real_run:{name}:tetra", dict(inputs, level=float(ef[ie]), got=float(g[ie]), lower=float(lo[der, ie]), upper=float(hi[der, ie]),
+                                                                 note="mean over 32 k-points and 2 bands of the 12-tetrahedra weight of the box k +- dk/2 (pythtb eigenvalues), "
+                                                                      "bounds over the choice of face diagonals"))
+        nb = E.shape[2]
+        if ef[0] < E.min() and abs(got[0][0]) > 1e-12:
+            rep.violation("real_run:CumDOS:tetra:below_all_bands", dict(inputs, got=float(got[0][0])))
+        if ef[-1] > E.max() and abs(got[0][-1] - nb) > 1e-9:
+            rep.violation("real_run:CumDOS:tetra:above_all_bands", dict(inputs, got=float(got[0][-1]), num_wann=nb))
+        # sensitivity of this sub-check: boxes of twice the size must be told apart
+        lo2, hi2, _ = bounds(2.0)
+        mid2 = (lo2 + hi2) / 2
+        if not np.any((mid2 < lo - 1e-4) | (mid2 > hi + 1e-4)):
+            raise MachineryError("sensitivity self-test of the real run failed: boxes k +- dk are not told apart from k +- dk/2")
+        if not (np.any((hi[0] > 0.01) & (lo[0] < nb - 0.01)) and np.any(hi[1] > 0.01)):
+            raise MachineryError("the real run has no Fermi level inside a band")
+        rep.part("real_run", k_points=int(np.prod(NK)), bands=int(nb), levels=len(ef), worst_excess_over_bounds=worst, tolerance=REAL_TOL,
+                 widest_bound_interval=float(np.max(hi - lo)), wrong_box_size_detected=True)
+    finally:
+        shutil.rmtree(wd, ignore_errors=True)
 
 
 def check(pid, tier):
     rep = Report(pid, tier, "model_checking")
     thorough = tier == "thorough"
     rng = random.Random(seed() * 7919 + 14)
-    rep.rule("TLC enumerates every sorted corner multiset x Fermi level x der x branch (MC_TetraWeights), every parallelepiped corner assignment "
+    rep.rule("TLC enumerates every sorted corner multiset x Fermi level x der x branch (MC_TetraWeights), every kept parallelepiped corner assignment "
              "(MC_TetraParal) and every band table / Fermi grid / threshold (MC_TetraGroups) inside the constants; a case = one TLC state replayed on "
-             "the real function (float vs exact rational), plus seeded random recorded calls validated by TLC; distinct by input tuple")
+             "the real function (float vs exact rational), plus seeded random recorded calls validated by TLC, plus floating-point cases outside "
+             "TLC (nearly coincident corners, one real run); distinct by input tuple")
     rep.assume("energies are integer multiples of 1/16 or 1/8, so all comparisons inside the code are exact and only rounding of the arithmetic remains")
-    rep.assume("a Fermi level never equals a coincident corner energy (NotOnDegenerateCorner); bands are ordered at every corner")
+    rep.assume("a Fermi level never equals a coincident corner energy in the TLC-bound parts (NotOnDegenerateCorner); bands are ordered at every corner")
     jobs = {}
     jobs.update(tetra_jobs(thorough))
     jobs.update(paral_jobs(thorough))
     jobs.update(groups_jobs(thorough))
-    import time
-    t = [time.time()]
+    t = [os.times()]
 
     def lap(name):
-        t.append(time.time())
-        rep.part("wall_s_by_part", **{name: round(t[-1] - t[-2], 1)})
-    res = tlc_jobs(jobs, WORKERS)
-    lap("tlc_models_concurrent")
-    oracle = part_tetra(rep, res, rng)
-    lap("replay_tetra")
-    part_oracle_numeric(rep, oracle, rng)
-    part_near_coincident(rep, thorough, rng)
-    part_paral(rep, res, rng)
-    lap("replay_paral")
-    part_groups(rep, res, thorough, rng)
-    lap("replay_groups")
-    part_records(rep, thorough, rng)
-    lap("records")
-    return rep.finish()
+        t.append(os.times())
+        a, b = t[-2], t[-1]
+        rep.part("cpu_s_by_part", **{name: round((b.user + b.system + b.children_user + b.children_system) - (a.user + a.system + a.children_user + a.children_system), 1)})
+        rep.part("wall_s_by_part", **{name: round(b.elapsed - a.elapsed, 1)})
+
+    def body():
+        G = Guard(rep)
+        res = tlc_jobs(jobs, WORKERS)
+        lap("tlc_models_concurrent")
+        oracle = part_tetra(rep, res, rng)
+        lap("replay_tetra")
+        part_oracle_numeric(rep, oracle, rng)
+        part_near_coincident(rep, thorough, rng)
+        lap("float_parts")
+        part_paral(rep, res, rng, G)
+        lap("replay_paral")
+        part_groups(rep, res, thorough, rng, G)
+        lap("replay_groups")
+        part_records(rep, thorough, rng, G)
+        lap("records")
+        part_real_run(rep)
+        lap("real_run")
+    return run_parts(rep, body)
